@@ -359,7 +359,10 @@ func (x *Exec) evalIdent(env *SpecEnv, name string) SVal {
 	case "nil":
 		return SVal{VScalar{IntLit(0)}, goT(types.Typ[types.UntypedNil])}
 	case "now":
-		return SVal{x.ghostGet(env.st, "now", VScalar{x.declare("now0", SInt)}), goT(types.Typ[types.Int64])}
+		// (a local variable of the enclosing function called now takes precedence over the clock)
+		if env.fr == nil || x.findLocal(env.fr, env.li, "now") == nil {
+			return SVal{x.ghostGet(env.st, "now", VScalar{x.declare("now0", SInt)}), goT(types.Typ[types.Int64])}
+		}
 	case "wm":
 		return SVal{VScalar{env.st.wm}, intT}
 	case "MaxInt64":
